@@ -114,8 +114,13 @@ def gen_chan(kind):
             # yield-polling loops (bounded send on a full ring, the drain loop, every receive of
             # a spinning channel) starve under strict-priority schedules: fair schedules only
             fair = kind == "b" or mode >= 0.60
+            env = _env(rng, fair=fair)
+            if kind in "us" and v > 2 and rng.random() < 0.3:
+                # one message (mostly not the first) is a NULL payload in the real code: the
+                # harness stores v - k, the runtime prints the data cells plus k (VR_BIAS)
+                env = dict(env, VR_BIAS=".data:%d" % rng.randrange(2, v))
             cases.append({"args": [k, kind.upper() if spin else kind, p2, "|".join(fibers)],
-                          "env": _env(rng, fair=fair)})
+                          "env": env})
         return cases
     return gen
 
